@@ -129,6 +129,25 @@ def gen():
             if mt == text:
                 continue
             out.append(dict(id=len(out), file=u.file, qual=u.qual, op=op, line=ln, span=sp, new=new, props=sorted(props)))
+    # carry suite verdicts over from an earlier round for files unchanged since that round's base (MUTSCAN_CARRY=<old json>)
+    carry = os.environ.get('MUTSCAN_CARRY')
+    if carry:
+        old = {}
+        for m in json.load(open(carry)):
+            if 'suite' in m:
+                old[(m['file'], tuple(m['span']), m['new'])] = m['suite']
+        same = set()
+        for f in set(m['file'] for m in out):
+            a = subprocess.run(['git', '-C', ROOT, 'show', GITBASE + ':' + f], capture_output=True, text=True).stdout
+            if a == open(os.path.join(ROOT, f)).read():
+                same.add(f)
+        n = 0
+        for m in out:
+            k = (m['file'], tuple(m['span']), m['new'])
+            if m['file'] in same and k in old:
+                m['suite'] = old[k]
+                n += 1
+        print('carried', n, 'suite verdicts; unchanged files', sorted(same))
     json.dump(out, open(OUT + '/mutants.json', 'w'))
     print('mutants', len(out), 'functions', len(set(m['qual'] for m in out)))
 
@@ -235,9 +254,10 @@ def tests():
 
 def report(prop=None):
     ms = json.load(open(OUT + '/mutants.json'))
-    sv = [m for m in ms if m.get('suite') and (prop is None or prop in m['props'])]
+    isfl = lambda m: any(not v[0].startswith(('UNDECIDED', 'ERROR')) for v in m.get('flagged', {}).values())
+    sv = [m for m in ms if m.get('suite') and not isfl(m) and (prop is None or prop in m['props'])]
     print('total', len(ms), 'flagged', sum(1 for m in ms if any(not v[0].startswith(('UNDECIDED', 'ERROR')) for v in m.get('flagged', {}).values())),
-          'killed-by-tests', sum(1 for m in ms if m.get('suite') is False), 'survivors', len([m for m in ms if m.get('suite')]))
+          'killed-by-tests', sum(1 for m in ms if m.get('suite') is False and not isfl(m)), 'survivors', len([m for m in ms if m.get('suite') and not isfl(m)]))
     cur = None
     for m in sorted(sv, key=lambda m: (m['file'], m['line'])):
         if m['qual'] != cur:
